@@ -15,7 +15,7 @@ Driver for C13.  All tokens after the op kind are integers.
   probstr <name> LSTR                     spec.probability of profile <name> is the STRING LSTR (parsed by the model)
   sel <name> <nsSel> <objSel>             the selectors of profile <name> evaluate to: 0 nil 1 empty 2 match 3 no match 4 error
                                           (the model decides `matched` from them)
-  handle <op> <sub> <isPods> <hasObj> <gateSkipRes> <rand>
+  handle <op> <sub> <isPods> <hasObj> <gateSkipRes> <gateNoExt> <rand>
                                           -> `hresp 0` (rejected) | `hresp 1` + observation block of the pod the API server
                                              STORES for slot 0 (PodMutatingHandler.Handle + JSON patch); slot 0 is kept.
                                              op: 0 CREATE 1 UPDATE 2 DELETE 3 CONNECT; sub: 0 = no sub-resource
@@ -323,12 +323,12 @@ def stepLine (st : St) (line : String) : St × List String :=
     | _ => (st, ["bad-op"])
   | "handle" :: rest =>
     match ints? rest, st.cur with
-    | some [op, sub, isPods, hasObj, gate, rand], some p =>
+    | some [op, sub, isPods, hasObj, gate, noExt, rand], some p =>
       match opOfCode op with
       | none => (st, ["bad-op"])
       | some o =>
         let e : Envelope := { op := o, subresource := sub ≠ 0, isPods := isPods ≠ 0, hasObject := hasObj ≠ 0, hasOld := false }
-        match handleMutating stdRanges e (gate ≠ 0) rand st.profiles p with
+        match handleMutating stdRanges e (gate ≠ 0) (noExt ≠ 0) rand st.profiles p with
         | none => (st, ["hresp 0"])
         | some q => (st, "hresp 1" :: showPod q)
     | _, _ => (st, ["bad-op"])
